@@ -42,6 +42,8 @@ DTYPES = {
     "len": np.dtype([("time", np.int64), ("length", np.int32), ("dt", np.int16), ("id", np.int64)]),
     "arr": np.dtype([("time", np.int64), ("endtime", np.int64), ("id", np.int64), ("wf", np.int16, (3,))]),
     "titled": np.dtype([(("Start", "time"), np.int64), (("End", "endtime"), np.int64), (("Ident", "id"), np.int64)]),
+    # a structured dtype with padding between its fields (align=True): legal numpy, and what multi-field indexing returns
+    "aligned": np.dtype([("time", np.int64), ("endtime", np.int64), ("flag", np.int8), ("id", np.int64)], align=True),
 }
 
 
@@ -131,6 +133,9 @@ def _check(chunks, md, L, dtype_name, rechunk):
     S, E = L.bounds[0], L.bounds[-1]
     rows = L.rows
     ctx.check_tiling(chunks, S, E, "roundtrip")
+    for c in chunks:
+        prove(tuple(c.data.dtype.names) == tuple(DTYPES[dtype_name].names),
+              f"roundtrip:loaded rows have fields {c.data.dtype.names}, written were {DTYPES[dtype_name].names}")
     ids = [int(x) for c in chunks for x in c.data["id"]]
     prove(ids == [i for _, _, i in rows], f"roundtrip:rows lost/duplicated/reordered: {ids}")
     k = 0
@@ -226,6 +231,7 @@ def _grid(tier):
     # return no chunk, splitting targets several
     for l, tgt in (([1, 1], None), ([1, 1, 1], 3), ([1, 1, 1], 2), ([2, 1], 1), ([0, 1, 1], 2), ([1, 0, 1], 1)):
         g.append(dict(layout=l, proc="threaded", **(dict(rechunk=True, target=tgt) if tgt else {})))
+    g.append(dict(layout=[2, 1], dtype_name="aligned"))
     for dn in ("len", "arr", "titled"):
         g.append(dict(layout=[2, 1], dtype_name=dn))
         g.append(dict(layout=[1, 1, 1], dtype_name=dn, rechunk=True, target=2))
